@@ -17,6 +17,27 @@ func init() {
 	vregister("H_C15_key", H_C15_key)
 	vregister("H_C15_update", H_C15_update)
 	vregister("H_C15_parse", H_C15_parse)
+	vregister("H_C15_comma", H_C15_comma)
+}
+
+// a single device string that contains commas (e.g. two qualified names joined by one) is not a device name:
+// the request must be refused and the map left alone - otherwise it would parse back as several devices
+func H_C15_comma() {
+	a := nondetString("a", vparam("PART"))
+	b := nondetString("b", vparam("PART"))
+	d := a + "," + b
+	ann := map[string]string{"foreign.io/key": "x"}
+	tok := vfreeze(ann)
+	res, err := UpdateAnnotations(ann, "vendor.class", "dev0", []string{d})
+	vassert("comma-device-refused-iff-not-qualified", (err == nil) == vregex(vC15QualRe, d))
+	if err != nil {
+		vreach("comma-refused")
+		vunchanged(tok, "comma-refused-leaves-map-intact")
+		return
+	}
+	vreach("comma-accepted")
+	_, got, perr := ParseAnnotations(map[string]string{"cdi.k8s.io/vendor.class_dev0": res["cdi.k8s.io/vendor.class_dev0"]})
+	vassert("comma-parse-back-exact", perr == nil && len(got) == 1 && got[0] == d)
 }
 
 // lengths around the 63 character limit and the small ones
